@@ -116,12 +116,12 @@ def classes(case):
 
 
 @st.composite
-def _cases(draw):
+def _cases(draw, large=False):
     spec = draw(models.model_specs(open_patterns=True))
     if draw(st.integers(0, 2)) == 0:
-        j = draw(trees.wf_trees(spec, max_nodes=8))
+        j = draw(trees.wf_trees(spec, max_nodes=40 if large else 8, wide=14 if large else 3))
     else:
-        j = draw(trees.any_trees(max_nodes=7))
+        j = draw(trees.any_trees(max_nodes=40 if large else 7, max_branches=14 if large else 4))
     return {'tree': j, 'model': spec, 'text': True}
 
 
@@ -146,4 +146,5 @@ def stages(tier):
              'every tree (no well-formedness filter) with <= 3 (quick) / 4 (thorough) non-concept branches over vars {a,b,c}, '
              'roles {:r,:r-of,:s}, atom k, concept in {absent,x}; x {default, noop}'),
         Hyp('random', _cases, 8000, 300000),
+        Hyp('random-large', lambda: _cases(large=True), 300, 15000),
     ]
